@@ -3,6 +3,8 @@ package props
 import (
 	"bytes"
 	"context"
+	"errors"
+	"fmt"
 	"strings"
 
 	"cuelabs.dev/go/oci/ociregistry"
@@ -38,7 +40,16 @@ func c13(env *core.Env) {
 	prefix := []string{"pre", "pre/fix", "x/y/z"}[c.Int("prefix", 3)]
 	mem := ocimem.New()
 	tracker := reg.NewTracker()
-	backend := reg.Wrap(mem, tracker, nil)
+	// the underlying listing may break off: the view's listing then ends with an error
+	// too, not as if it were complete
+	breakAt := -1
+	plan := &reg.FaultPlan{IterFailAfter: func(call *reg.Call) (int, error) {
+		if call.Method != "Repositories" || breakAt < 0 {
+			return -1, nil
+		}
+		return breakAt, errors.New("the underlying listing broke off")
+	}}
+	backend := reg.Wrap(mem, tracker, plan)
 	// siblings outside the prefix, some sharing a textual prefix with it
 	blob := []byte("sibling")
 	bdesc := ociregistry.Descriptor{Digest: reg.Sha256(blob), Size: int64(len(blob)), MediaType: "application/octet-stream"}
@@ -62,6 +73,12 @@ func c13(env *core.Env) {
 		under, _ = httpHop(env, backend, &stackOpts{}, "hop")
 	}
 	view := ocifilter.Sub(under, prefix)
+	if parts := strings.Split(prefix, "/"); len(parts) > 1 && c.Bool("view-of-a-view", 1, 3) {
+		// the same view, arrived at in two steps: a view of a view
+		k := c.Range("view-of-a-view.split", 1, len(parts)-1)
+		view = ocifilter.Sub(ocifilter.Sub(under, strings.Join(parts[:k], "/")), strings.Join(parts[k:], "/"))
+		env.Probe("c13:view-of-a-view")
+	}
 	m := reg.NewModel(false)
 	m.StrictCodes = false
 	cfg := reg.GenConfig{
@@ -123,7 +140,22 @@ func c13(env *core.Env) {
 			wantScope = ociauth.NewScope(mapped...)
 		}
 		tracker.Reset()
+		breakAt = -1
+		if op.Kind == reg.Repositories && c.Bool("underlying-listing-breaks-off", 1, 5) {
+			breakAt = c.Range("underlying-listing-breaks-off.at", 0, 4)
+		}
+		delivered := plan.IterFaultsDelivered
 		res := reg.Exec(ctx, view, op, h)
+		breakAt = -1
+		if plan.IterFaultsDelivered > delivered {
+			env.Fault("underlying-listing-breaks-off")
+			env.Op("Repositories:underlying-listing-breaks-off:" + fmt.Sprint(res.ListErr != nil))
+			env.Logf("%d %s [underlying listing broke off after %d names] -> %s", i, op, plan.IterItemsBeforeFault, res)
+			if res.ListErr == nil && !(op.StopAfter >= 0 && len(res.Items) >= op.StopAfter) {
+				env.Failf("C13/Repositories/underlying-error-swallowed", "%s through Sub(%q): the underlying listing broke off after %d names with an error, but the view's listing ended without one, as if complete: %v", op, prefix, plan.IterItemsBeforeFault, res.Items)
+			}
+			continue
+		}
 		env.Op(op.Kind.String() + ":" + nameClass + ":" + reg.CodeOf(res.Err))
 		env.Logf("%d %s [%s] -> %s calls=%v", i, op, nameClass, res, tracker.Calls)
 		env.Sample("%s [%s] -> %s", op, nameClass, res)
